@@ -120,6 +120,45 @@ func H_chan_fifo_cap2() {
 
 // ---- select -------------------------------------------------------------------
 
+// the buffered ring at an arbitrary head position: after 0..3 send/receive pairs
+// have rotated the ring, cap values go in through ChanSend or ChanTrySend (the
+// select path) in any mix and come out in order; a further non-blocking send fails
+func H_chan_ring() {
+	capN := nd_int("cap")
+	nd_assume(1 <= capN && capN <= 3)
+	ch := NewChan(8, capN)
+	rot := nd_int("rot")
+	nd_assume(0 <= rot && rot <= 3)
+	for i := 0; i < 3; i++ {
+		if i < rot {
+			sendv(ch, int64(100+i))
+			g, ok := recvv(ch)
+			nd_assert(ok && g == int64(100+i), "C10.ring.rotate")
+		}
+	}
+	vals := [3]int64{nd_int64("v0"), nd_int64("v1"), nd_int64("v2")}
+	try := [3]bool{nd_bool("try0"), nd_bool("try1"), nd_bool("try2")}
+	for i := 0; i < 3; i++ {
+		if i < capN {
+			if try[i] {
+				nd_assert(ChanTrySend(ch, unsafe.Pointer(&vals[i]), 8), "C10.ring.trysend")
+			} else {
+				sendv(ch, vals[i])
+			}
+		}
+	}
+	nd_assert(ChanLen(ch) == capN, "C10.ring.len")
+	extra := nd_int64("x")
+	nd_assert(!ChanTrySend(ch, unsafe.Pointer(&extra), 8), "C10.ring.full")
+	for i := 0; i < 3; i++ {
+		if i < capN {
+			g, ok := recvv(ch)
+			nd_assert(ok && g == vals[i], "C10.ring.order")
+		}
+	}
+	nd_reach("C10.ring")
+}
+
 func recvOp(ch *Chan, v *int64) ChanOp { return ChanOp{C: ch, Val: unsafe.Pointer(v), Size: 8} }
 func sendOp(ch *Chan, v *int64) ChanOp { return ChanOp{C: ch, Val: unsafe.Pointer(v), Size: 8, Send: true} }
 
